@@ -2,6 +2,7 @@
 # Sensitivity self-test: every patch in /verif/mutants and /verif/seeded is applied to a SCRATCH
 # COPY of /repo (never to /repo itself) and the quick check of the property it breaks must
 # report a violation (exit 1). Usage: lib/sensitivity.sh [name-filter]
+# SENS_PROP="C06 C07": only the patches registered for these properties.
 # Table: <patch file relative to /verif> <R = apply reversed | F = forward> <property> [budget of the quick run, when the default is too short for this one]
 VERIF=$(cd "$(dirname "$0")/.." && pwd)
 T=$(mktemp -d /tmp/verif-sens.XXXXXX)
@@ -12,6 +13,7 @@ while read -r patch dir prop budget; do
 	[ -z "$patch" ] && continue
 	case "$patch" in \#*) continue;; esac
 	if [ -n "$filter" ] && [[ "$patch" != *"$filter"* ]]; then continue; fi
+	if [ -n "${SENS_PROP:-}" ] && [[ " $SENS_PROP " != *" $prop "* ]]; then continue; fi
 	rm -rf "$T/repo"; mkdir -p "$T/repo" "$T/ev" "$T/rp"
 	rsync -a --exclude .git /repo/ "$T/repo/"
 	(cd "$T/repo" && git init -q . && git add -A >/dev/null 2>&1 && git -c user.email=x -c user.name=x commit -qm base >/dev/null 2>&1)
